@@ -191,12 +191,45 @@ theorem C17_fast_race_end_to_end (behs : List Beh) (sched : List Tid) :
         rw [(C17_fast.2.1 (c.hist.take c.taken) hall).1] at h1
         exact h1
 
-/-- **C17_small_buffer_race_always_leaks.** The converse of `C17_room_suffices`, for EVERY schedule: on a
-response channel of capacity `cap` with at least `cap + 2` members (`2 + 1` for an unbuffered channel),
-ExecuteRace - whatever the members return, however the goroutines are scheduled, whenever the caller
-cancels - never lets more than `cap + 1` member goroutines get past their send: at every moment of every
-execution at least `n - cap - 1` member goroutines have not ended, so the goroutines of `executeEach` never
-all end (and the closer, which waits for them, neither).  A bounded buffer (seeded change 12:
+/-- **C17_room_needed.** The converse of `C17_room_suffices`, for every collector loop, every group, every
+channel capacity and EVERY schedule: the number of member goroutines that have ended never exceeds the
+number of responses the collector has taken plus the capacity (plus one for an unbuffered channel: the
+rendezvous); hence all goroutines of `executeEach` can only have ended if the collector took at least
+`n - cap` responses; and once the collector has returned it never takes another one, whatever happens
+afterwards.  So a collector that returns after `k` responses on a channel with less room than `n - k`
+leaves member goroutines behind in EVERY execution - not only under unlucky timing. -/
+theorem C17_room_needed (C : Consumer σ ρ) (behs : List Beh) (cap : Nat) (sched : List Tid) :
+    let c := exec C (Config.init C behs cap) sched
+    c.members.countP MPc.isDone ≤ c.taken + max cap 1
+    ∧ (c.spawnedDone = true → behs.length ≤ c.taken + max cap 1)
+    ∧ (c.consReturned = true → ∀ more : List Tid,
+        (exec C c more).taken = c.taken ∧ (exec C c more).cons = c.cons) := by
+  intro c
+  have hr : Room c := room_exec C sched _ (room_init C behs cap)
+  have hlen : c.members.length = behs.length := by
+    rw [(exec_static C sched (Config.init C behs cap)).2.2]; simp [Config.init]
+  have hcap : c.cap = cap := by
+    rw [(exec_static C sched (Config.init C behs cap)).2.1]; simp [Config.init]
+  have hcnt : c.members.countP MPc.isDone ≤ c.taken + max cap 1 := by
+    have h1 := countP_isDone_le_hasSent c.members
+    have h2 := hr.histLen
+    have h3 := hr.room
+    rw [hcap] at h3
+    omega
+  refine ⟨hcnt, ?_, ?_⟩
+  · intro hsd
+    simp only [Config.spawnedDone, Bool.and_eq_true] at hsd
+    have := List.countP_eq_length.mpr (fun m hm => (List.all_eq_true.mp hsd.1) m hm)
+    omega
+  · intro hret more
+    exact returned_frozen C more c hret
+
+/-- **C17_small_buffer_race_always_leaks.** `C17_room_needed` for ExecuteRace, which takes at most one
+response: on a response channel of capacity `cap` with at least `cap + 2` members (`2 + 1` for an
+unbuffered channel), whatever the members return, however the goroutines are scheduled, whenever the
+caller cancels, never more than `cap + 1` member goroutines get past their send: at every moment of every
+execution at least `n - cap - 1` member goroutines have not ended, so the goroutines of `executeEach`
+never all end (and the closer, which waits for them, neither).  A bounded buffer (seeded change 12:
 `min(len(members), 8)`, leaking from 10 members on) is therefore not a matter of unlucky timing: every
 call leaks.  Only a capacity that grows with the group (`C17_room_suffices`: `cap ≥ n`) is safe for all
 collectors. -/
@@ -207,17 +240,12 @@ theorem C17_small_buffer_race_always_leaks (behs : List Beh) (cap : Nat)
     ∧ c.members.countP MPc.isDone ≤ max cap 1 + 1
     ∧ c.spawnedDone = false := by
   intro c
-  have hr : RaceRoom c := raceRoom_exec sched _ (raceRoom_init behs cap)
+  have ht : RaceTaken c := raceTaken_exec sched _ (by simp [RaceTaken, Config.init])
   have hlen : c.members.length = behs.length := by
     rw [(exec_static race sched (Config.init race behs cap)).2.2]; simp [Config.init]
-  have hcap : c.cap = cap := by
-    rw [(exec_static race sched (Config.init race behs cap)).2.1]; simp [Config.init]
   have hcnt : c.members.countP MPc.isDone ≤ max cap 1 + 1 := by
-    have h1 := countP_isDone_le_hasSent c.members
-    have h2 := hr.histLen
-    have h3 := hr.room
-    have h4 := hr.takenOK.2
-    rw [hcap] at h3
+    have h1 : c.members.countP MPc.isDone ≤ c.taken + max cap 1 := (C17_room_needed race behs cap sched).1
+    have h4 : c.taken ≤ 1 := ht.2
     omega
   refine ⟨hlen, hcnt, ?_⟩
   cases hsd : c.spawnedDone with
